@@ -268,7 +268,7 @@ MANIFEST = {
     "note": ("trusted: TLC, the binder checks/c09.py (builds objects, maps results back by uuid, encodes doubles), exactness of "
              "k/4 and k/8 in float32; small-scope hypothesis beyond the enumerated universe. Not decided: empty vocabulary; "
              "sound_event_detection without any labelled item (mean average precision undefined, the library raises); the "
-             "value of base-level scores (only their aggregation); unmatched detections (C08). Open finding "
-             "Evaluates/cml/ValueError/vocab1."),
+             "value of base-level scores (only their aggregation); unmatched detections (C08). Open findings (one-tag "
+             "vocabulary): Evaluates/cml/ValueError/vocab1 and Evaluates/top3/ValueError/vocab1."),
     "design_ref": "DESIGN.md section 4 C09",
 }
